@@ -34,6 +34,11 @@ def oracle(p):
             if rf[0] in ('Headers', 'PushPromise') and rf[-1][0] == 'Decoded':
                 hs = [(bytes(n), bytes(v)) for n, v, _ in rf[-1][1]]
                 kind = kind_of(prev, client, rf)
+                if parts[0][0] == 0:
+                    # how the library itself classified the block (a client treats HEADERS on a never-promised even stream as a request: F-C07-1, judged there)
+                    for ev in parts[0][1]:
+                        if ev[0] in (1, 2, 3, 4) and ev[1] == rf[1] and rf[0] == 'Headers':
+                            kind = {1: 'Request', 2: 'Response', 4: 'Response', 3: 'Trailers'}[ev[0]]
                 delivered, joined = hdrspec.join_cookies(hs) if cfg['normalize_in'] else (hs, False)
                 ok_spec = hdrspec.conformant(kind, delivered)
                 decodable = not cfg['header_encoding'] or all(max(n + v, default=0) < 128 for n, v in delivered)
